@@ -227,6 +227,13 @@ def check_c12(prog, rep, tier, cfg):
                             any(any(x[0] == "call" and x[2].endswith("get_token_type") for x in o2) for o2 in oo):
                         eq_kind = True
             not_ignored = has("map(", "Ok") or has("get_token_mut(", "Ok")
+            # the per-literal step may receive the token as a parameter (`fn step(&self, tok: &mut Token, fmt: &FormattingData)`): a `&mut Token`
+            # exists only behind the Ok of get_token_mut (C07.a), and that is what every call site hands over
+            recv = canon(b, sc[0].args[0])
+            mp = re.match(r"^(?:deref\()*arg(\d+)\)*$", recv)
+            step_sites = [c for c in prog.who_calls(b.npath) if c.body.crate.startswith("pasfmt")] if mp else []
+            if mp and step_sites and "Token" in b.locals[int(mp.group(1))]["ty"] and b.locals[int(mp.group(1))]["ty"].startswith("&mut"):
+                not_ignored = not_ignored or all(re.search(r"get_token_mut\(.*\)\)?\.0@Ok", canon(c.body, c.args[int(mp.group(1)) - 1])) for c in step_sites)
             rep.check(not_ignored and ((has("", "TextLiteral") and has("", "MultiLine")) or eq_kind), R, "only-unignored-MultiLine-literals",
                       "set_content is not confined to tokens that are not ignored (Ok) and of kind TextLiteral(MultiLine): %s" % vs, where=sc[0].where(),
                       instance={"guards": ["Ok(tok)", "TextLiteral", "MultiLine"]})
@@ -239,7 +246,18 @@ def check_c12(prog, rep, tier, cfg):
         tr = b.calls_to(SF + "try_rewrite_string")
         if rep.check(len(tr) == 1, R, "one-rewrite-call", "expected one try_rewrite_string call"):
             a = [canon(b, x) for x in tr[0].args]
-            rep.check("get_content(" in a[1] and "get_token_mut(" in a[1] and "get_token_mut(" in a[2] and a[2].endswith(".1"), R, "rewrite(this-token-content,this-token-fmt)",
+            same_token = "get_content(" in a[1] and "get_token_mut(" in a[1] and "get_token_mut(" in a[2] and a[2].endswith(".1")
+            mt, mf = re.match(r"^get_content\((?:deref\()*arg(\d+)\)*$", a[1]), re.match(r"^arg(\d+)$", a[2])
+            if not same_token and mt and mf:
+                # token and formatting data are parameters of the step: at every call site they are the two halves of one get_token_mut(..)
+                sites = [c for c in prog.who_calls(b.npath) if c.body.crate.startswith("pasfmt")]
+
+                def halves(c):
+                    t0, f0 = canon(c.body, c.args[int(mt.group(1)) - 1]), canon(c.body, c.args[int(mf.group(1)) - 1])
+                    m0, m1 = re.search(r"(get_token_mut\(.*?\)\)?)\.0", t0), re.search(r"(get_token_mut\(.*?\)\)?)\.1$", f0)
+                    return bool(m0 and m1 and m0.group(1) == m1.group(1))
+                same_token = bool(sites) and all(halves(c) for c in sites)
+            rep.check(same_token, R, "rewrite(this-token-content,this-token-fmt)",
                       "try_rewrite_string is not called with this token's content and this token's formatting data: %s" % a[1:3], instance={"content": "tok.get_content()", "indent": "fmt of the same token"})
             # base indentation = leading blanks of the last line of this literal
             rep.check("count_leading_whitespace(" in a[3] and re.search(r"last\((lines|lines_custom)\(get_content\(", a[3]) is not None, R, "base=leading-blanks-of-last-line",
